@@ -8,7 +8,7 @@ Sub-properties (case["sub"]):
   conv      convolution_2d = kernel-weighted sum over the FULL window, NaN where it leaves the raster / holds a NaN
   hotspots  classes from the z-score of the neighbourhood mean, strict thresholds, negation antisymmetry,
             ZeroDivisionError on zero global std
-  reject    even-shaped / non-ndarray kernels raise ValueError (custom_kernel, focal_stats, apply)
+  reject    even-shaped / non-ndarray kernels (outside the quantifier): observed only - today they raise ValueError
 """
 import hashlib
 
@@ -23,21 +23,27 @@ PROP = "C09"
 RULE = ("Generator: rasters 1..12 a side (thorough 16) over float64/float32/int16/int32/int64/uint8 with palettes small ints, signed, "
         "halves, non-float32-representable, free floats and all-distinct permutations, NaN cells at densities none/one/some/half/most; "
         "0/1 kernels of odd shape 1..11 (each side up to the raster side rounded up to odd, at least 3), float64 and int64, modes random density / "
-        "forced asymmetric / single 1 / two 1s / all 1 / all 0, a minority with extra entries other than 0/1 (which the statement and docstring "
-        "exclude from the window); every one of the 512 0/1 3x3 kernels on 5 (quick) / 50 (thorough) fixed rasters; reducers: 7 built-ins "
-        "(any subset/order), w[0,0]-else--1, count of NaN positions, nansum(w*P) with P = row-major position index + 1; focal.mean with passes 0..3 "
-        "and excludes default/[nan]/[nan,0]/[3]/[nan,-1,2]; weighted float/int kernels for convolution_2d (also larger than the raster); "
-        "hotspots with 0/1 and positive weighted kernels on spiky/blocky rasters, constant rasters for the zero-std error; invalid kernels. "
-        "Oracle: shift-and-stack brute force in float64 on the float32-cast data (vlib/oracles/focal.py). "
+        "forced asymmetric / single 1 / two 1s / all 1 / all 0; every one of the 512 0/1 3x3 kernels on 5 (quick) / 50 (thorough) fixed rasters; "
+        "reducers: 7 built-ins (any subset/order), w[0,0]-else--1, count of NaN positions, nansum(w*P) with P = row-major position index + 1; "
+        "focal.mean with passes 0..3 and excludes default/[nan]/[nan,0]/[3]/[nan,-1,2]; weighted float/int kernels for convolution_2d (also larger "
+        "than the raster); hotspots with 0/1 and positive weighted kernels on spiky/blocky rasters, constant rasters for the zero-std error; even-shaped / non-ndarray kernels as observation only (never judged). "
+        "About 1 in 16 stats/reducer kernels carries an entry other than 0/1: those lie outside the quantifier, are never judged and only record "
+        "(label non01_observed=...) which entries the implementation takes as the window. "
+        "Oracle: shift-and-stack brute force in float64 on the ORIGINAL data (vlib/oracles/focal.py); accepted: any single- or double-precision evaluation "
+        "(one float32 rounding per input value and of the result, any summation order); min/max/corner reducer: the input value or its float32 rounding. "
         "Non-trivial: stats/reducer - kernel with >= 2 ones that differs from all its flips/transposes/turns, or a NaN cell under a 1-entry of some window; "
         "mean - passes >= 1 and some non-excluded cell with a differing valid neighbour; conv - some output cell whose window stays inside and the kernel is "
-        "asymmetric with >= 2 non-zero weights or a NaN lies in a window; hotspots - at least one decidable non-zero class; reject - every case. "
+        "asymmetric with >= 2 non-zero weights or a NaN lies in a window; hotspots - at least one decidable non-zero class; reject - none (observation). "
         "Distinct by SHA-1 of the case (random) or enumeration index.")
 ASSUMPTIONS = ["NumPy backend only (Dask agreement is C01)",
-               "kernels are odd-shaped ndarrays (anything else must raise ValueError); a kernel entry other than 1 is not part of the window",
-               "raster magnitudes <= 1e6, no +-inf cells; results compared under a forward error bound for single-precision evaluation in any order",
-               "focal.mean excludes are non-empty homogeneous float lists",
-               "hotspots: kernel sum > 0, at least one finite cell; cells whose reference |z| lies within the stated band of 1.65/1.96/2.58 are skipped and counted",
+               "kernels are odd-shaped ndarrays of 0/1 entries; even-shaped or non-ndarray kernels and kernels with other entries are outside "
+               "the quantifier and only observed - so reading membership as `kernel != 0` instead of `kernel == 1` is equivalent under the statement",
+               "raster magnitudes <= 1e6, no +-inf cells; working precision, window dtype and result dtype are NOT part of the statement: results are accepted "
+               "under a forward error bound covering single or double precision in any evaluation order",
+               "focal.mean excludes are non-empty homogeneous float lists; excluded cells are compared bit for bit, all others under a float64 forward bound",
+               "hotspots: kernel sum > 0, at least one finite cell; the class is decided from the float64 z-score; cells where the z-score of the float32-rounded "
+               "data falls in another class, or either lies within the stated band of 1.65/1.96/2.58, are skipped and counted; a NaN lying only under zero "
+               "weights may give 0 (today's behaviour) or the class of the NaN-free weighted mean",
                "empty window => NaN, except sum => 0 (NumPy nan-function semantics)"]
 BUDGET_S = {"quick": 170, "thorough": 1100}
 
@@ -116,24 +122,60 @@ _ORDER = {"interior": 0, "edge_clipped": 1, "nan_in_window": 2, "empty_window": 
 
 
 def _judge_layer(r, prefix, layer, ref, tol, info, a, kern, alt=None):
-    """Compare one output layer with the oracle; one failure per layer, named by the simplest kind of cell that is wrong."""
+    """Compare one output layer with the oracle; one failure per layer, named by the simplest kind of cell that is wrong.
+    `alt`: second acceptable exact value per cell (the float32 rounding of a reference that is an input value)."""
     H, W = a.shape
     layer = np.asarray(layer, dtype=np.float64)
     if layer.shape != ref.shape:
         r.fail(prefix + ".shape", "shape %s, expected %s" % (layer.shape, ref.shape))
         return
-    bad = F.close(layer, ref, tol)
+    bad = F.close(layer, ref, tol, alt)
     if not bad.any():
         return
     cells = [(_ORDER[_where(y, x, info, H, W, kern.shape)], y, x) for y, x in np.argwhere(bad)]
     o, y, x = min(cells)
     where = [k for k, v in _ORDER.items() if v == o][0]
-    if alt is not None and not F.close(layer, alt[0], alt[1]).any():
-        where = "non01_entries_selected"
     r.fail("%s.%s" % (prefix, where),
-           "cell (%d,%d): got %r, expected %r (tol %.3g); %d/%d cells wrong; raster %s %s kernel %s" % (
-               y, x, float(layer[y, x]), float(ref[y, x]), float(tol[y, x]), int(bad.sum()), bad.size,
+           "cell (%d,%d): got %r, expected %r (tol %.3g%s); %d/%d cells wrong; raster %s %s kernel %s" % (
+               y, x, float(layer[y, x]), float(ref[y, x]), float(tol[y, x]),
+               "" if alt is None else ", or exactly %r" % float(alt[y, x]), int(bad.sum()), bad.size,
                a.dtype, a.tolist(), kern.tolist()))
+
+
+def _has_non01(kern):
+    return bool(np.any((kern != 0) & (kern != 1)))
+
+
+def _reducer_ref(a, kern01, name):
+    """Reference of a user reducer: the plain-Python function applied to the window the contract describes."""
+    H, W = a.shape
+    py = REDUCERS[name]
+    ref = np.empty((H, W))
+    tol = np.zeros((H, W))
+    kh, kw = kern01.shape
+    pat = (np.arange(kh * kw) + 1.0).reshape(kh, kw)
+    for y, x, w in F.reducer_windows(a, kern01):
+        ref[y, x] = float(py(w))
+        if name == "wsum":
+            n = int((~np.isnan(w)).sum())
+            tol[y, x] = ((max(2.0, n / 2.0) + 1.0) * F.EPS32 * float(np.nansum(np.abs(w * pat)))
+                         + F.EPS32 * abs(ref[y, x]) + F.TINY32)
+    # corner returns an input value (or -1): the value itself or its float32 rounding, nothing else
+    alt = F.f32(ref) if name == "corner" else None
+    return ref, tol, alt
+
+
+def _observe_non01(r, kern, out, judge):
+    """Kernels with entries other than 0/1 are OUTSIDE the property's quantifier ("all 0/1 kernels"): nothing is demanded.
+    The case only records which reading the implementation takes: window = entries equal to 1, or entries different from 0."""
+    r.nt = False
+    if out is None:
+        r.label("non01_observed=raised")
+        return r
+    eq1 = judge((kern == 1).astype(float))
+    ne0 = judge((kern != 0).astype(float))
+    r.label("non01_observed=%s" % ("both" if eq1 and ne0 else "eq1" if eq1 else "ne0" if ne0 else "neither"))
+    return r
 
 
 def _nontrivial(ones, asym, info):
@@ -152,11 +194,17 @@ def body_stats(case, ctx):
     r = R()
     ones, asym = _kernel_labels(r, kern, H, W)
     _raster_labels(r, a)
+    if _has_non01(kern):
+        try:
+            o = np.asarray(focal_stats(ras, kern, stats_funcs=["mean"]).values)[0]
+        except Exception:  # noqa: outside the quantifier, observation only
+            o = None
+
+        def judge(k01):
+            rf, tl, _ = F.window_stats(a, k01)
+            return o.shape == (H, W) and not F.close(o, rf["mean"], tl["mean"]).any()
+        return _observe_non01(r, kern, o, judge)
     ref, tol, info = F.window_stats(a, kern)
-    alt = None
-    if np.any((kern != 0) & (kern != 1)):
-        ra, ta, _ = F.window_stats(a, (kern != 0).astype(float))
-        alt = (ra, ta)
     r.nt = _nontrivial(ones, asym, info)
     if info["nan_under"].any():
         r.label("nan_in_window")
@@ -172,12 +220,10 @@ def body_stats(case, ctx):
         r.fail("stats.labels", "stats coordinate %s, requested %s" % (got_names, want))
     vals = np.asarray(out.values)
     for i, s in enumerate(want):
-        _judge_layer(r, "stats.%s" % s, vals[i], ref[s], tol[s], info, a, kern,
-                     alt=None if alt is None else (alt[0][s], alt[1][s]))
+        _judge_layer(r, "stats.%s" % s, vals[i], ref[s], tol[s], info, a, kern, alt=info["alt"].get(s))
     if case.get("apply_default"):
         o2 = apply(ras, kern)
-        _judge_layer(r, "apply.default_mean", o2.values, ref["mean"], tol["mean"], info, a, kern,
-                     alt=None if alt is None else (alt[0]["mean"], alt[1]["mean"]))
+        _judge_layer(r, "apply.default_mean", o2.values, ref["mean"], tol["mean"], info, a, kern)
     return r
 
 
@@ -192,24 +238,25 @@ def body_reducer(case, ctx):
     ones, asym = _kernel_labels(r, kern, H, W)
     _raster_labels(r, a)
     r.label("reducer=%s" % name)
+    if _has_non01(kern):
+        try:
+            o = np.asarray(apply(ras, kern, _jitted(name)).values, dtype=np.float64)
+        except Exception:  # noqa: outside the quantifier, observation only
+            o = None
+
+        def judge(k01):
+            rf, tl, al = _reducer_ref(a, k01, name)
+            return o.shape == (H, W) and not F.close(o, rf, tl, al).any()
+        return _observe_non01(r, kern, o, judge)
     _, _, info = F.window_stats(a, kern)
     r.nt = _nontrivial(ones, asym, info)
     if info["nan_under"].any():
         r.label("nan_in_window")
-    py = REDUCERS[name]
-    ref = np.empty((H, W))
-    tol = np.zeros((H, W))
-    kh, kw = kern.shape
-    pat = (np.arange(kh * kw) + 1.0).reshape(kh, kw)
-    for y, x, w in F.reducer_windows(a, kern):
-        ref[y, x] = float(py(w))
-        if name == "wsum":
-            n = int((~np.isnan(w)).sum())
-            tol[y, x] = max(2.0, n / 2.0) * F.EPS32 * float(np.nansum(np.abs(w.astype(np.float64) * pat))) + F.EPS32 * abs(ref[y, x])
+    ref, tol, alt = _reducer_ref(a, kern, name)
     out = apply(ras, kern, _jitted(name))
     if out.shape != (H, W):
         return r.fail("apply.%s.shape" % name, "shape %s" % (out.shape,))
-    _judge_layer(r, "apply.%s" % name, out.values, ref, tol, info, a, kern)
+    _judge_layer(r, "apply.%s" % name, out.values, ref, tol, info, a, kern, alt=alt)
     return r
 
 
@@ -249,7 +296,10 @@ def body_mean(case, ctx):
     o = np.asarray(out.values, dtype=np.float64)
     if o.shape != (H, W):
         return r.fail("mean.shape", "shape %s" % (o.shape,))
-    bad = F.close(o, ref, tol)
+    # cells excluded from the start are "passed through untouched": bit for bit; all others under the float64 forward bound
+    with np.errstate(invalid="ignore"):
+        same = (o == x0) | (np.isnan(o) & np.isnan(x0))
+    bad = (F.close(o, ref, tol) & ~exm) | (exm & ~same)
     if bad.any():
         y, x = [int(v) for v in np.argwhere(bad)[0]]
         if passes == 0:
@@ -328,7 +378,7 @@ def body_hotspots(case, ctx):
     if h["const"]:
         r.label("constant_raster")
         if not h["exact_const"]:
-            r.amb += 1          # single-precision mean of n equal values need not reproduce the value: std==0 undecidable
+            r.amb += 1          # the mean of n equal values need not reproduce the value (or the raster is constant only after float32 rounding): std==0 undecidable
             return r
         r.nt = True
         try:
@@ -344,10 +394,10 @@ def body_hotspots(case, ctx):
     vals = set(int(v) for v in np.unique(o))
     if not vals <= HOT_SET:
         r.fail("hotspots.value_outside_set", "values %s; %s" % (sorted(vals - HOT_SET), msg))
-    z, cls, dec = h["z"], h["cls"], h["decidable"]
-    undefined = np.isnan(z)
-    r.amb += int((~dec).sum())
-    judge = dec & ~undefined
+    z, cls, judge = h["z"], h["cls"], h["decidable"]
+    undefined, soft = h["undefined"], h["soft"]
+    # cells not judged: float64 / float32-data z on different sides of, or within the band of, a threshold
+    r.amb += int((~judge & ~undefined).sum()) + int((soft & ~h["decidable_soft"]).sum())
     levels = set(int(abs(v)) for v in np.unique(cls[judge])) if judge.any() else set()
     for lv in (90, 95, 99):
         if lv in levels:
@@ -356,10 +406,18 @@ def body_hotspots(case, ctx):
         r.label("hot")
     if (cls[judge] < 0).any():
         r.label("cold")
+    if soft.any():
+        r.label("nan_only_under_zero_weight")
     r.nt = bool(judge.any() and (cls[judge] != 0).any())
-    if (undefined & (o != 0)).any():
-        y, x = np.argwhere(undefined & (o != 0))[0]
-        r.fail("hotspots.undefined_z_nonzero", "cell (%d,%d) = %d but its neighbourhood mean is undefined (window leaves raster / holds NaN); %s" % (y, x, int(o[y, x]), msg))
+    hard = undefined & ~soft
+    if (hard & (o != 0)).any():
+        y, x = np.argwhere(hard & (o != 0))[0]
+        r.fail("hotspots.undefined_z_nonzero", "cell (%d,%d) = %d but its neighbourhood mean is undefined (window leaves raster / NaN under a non-zero weight); %s" % (y, x, int(o[y, x]), msg))
+    # a NaN lying only under zero weights: 0 (0 * NaN is NaN: today's behaviour) and the class of the NaN-free weighted mean are both accepted
+    sbad = h["decidable_soft"] & (o != 0) & (o != h["cls_soft"])
+    if sbad.any():
+        y, x = np.argwhere(sbad)[0]
+        r.fail("hotspots.nan_under_zero_weight", "cell (%d,%d) = %d; accepted: 0 or %d; %s" % (y, x, int(o[y, x]), int(h["cls_soft"][y, x]), msg))
     bad = judge & (o != cls)
     if bad.any():
         y, x = np.argwhere(bad)[0]
@@ -399,7 +457,7 @@ def body_reject(case, ctx):
     kern = _bad_kernel(spec)
     fn = case["fn"]
     ras = S.mk_da({"dtype": "float64", "data": [[1.0, 2.0, 3.0, 4.0], [5.0, 6.0, 7.0, 8.0], [9.0, 1.0, 2.0, 3.0], [0.0, 4.0, 2.0, 1.0]]})
-    r = R(nt=True)
+    r = R(nt=False)                        # observation only: nothing is decided by these cases
     r.label("reject=%s" % spec["kind"], "fn=%s" % fn)
     call = {"custom_kernel": lambda: custom_kernel(kern),
             "focal_stats": lambda: focal_stats(ras, kern),
@@ -414,6 +472,8 @@ def body_reject(case, ctx):
         r.label("observed:%s_kernel_accepted" % spec["kind"])
     except ValueError:
         r.label("observed:%s_kernel_rejected" % spec["kind"])
+    except Exception as e:  # noqa: outside the quantifier - any other outcome is recorded, not failed
+        r.label("observed:%s_kernel_raised_%s" % (spec["kind"], type(e).__name__))
     return r
 
 
@@ -515,7 +575,7 @@ def kernel01(draw, H, W, kdtype, cap=11, non01=True):
             if k.sum() < 2:
                 k[kh // 2, kw // 2] = 1
     k = k.astype(kdtype)
-    if non01 and n > 1 and draw(st.sampled_from([False] * 7 + [True])):
+    if non01 and n > 1 and draw(st.sampled_from([False] * 15 + [True])):      # observation-only cases, outside the quantifier
         others = [2.0, 0.5, -1.0, 3.0] if kdtype.startswith("float") else [2, -1, 3]
         m = draw(st.integers(1, min(3, n)))
         for _ in range(m):
@@ -756,13 +816,18 @@ def shards(tier):
 
 
 LEVEL_TEXT = ("Randomised (Hypothesis) plus bounded-exhaustive search on the NumPy backend. focal_stats / apply are compared cell by cell with a "
-              "shift-and-stack brute-force model (float64 on the float32-cast data) for all seven built-in statistics and three position-sensitive "
-              "numba-jitted user reducers over rasters up to 12x12 (16x16 thorough) with NaN cells and int/float dtypes and odd 0/1 kernels up to 11x11 - "
-              "non-square, forced asymmetric, single-1, all-0, larger than the raster, a minority with non-0/1 entries; all 512 0/1 3x3 kernels are enumerated "
+              "shift-and-stack brute-force model (float64 on the original data, precision-agnostic bound) for all seven built-in statistics and three "
+              "position-sensitive numba-jitted user reducers over rasters up to 12x12 (16x16 thorough) with NaN cells and int/float dtypes and odd 0/1 kernels "
+              "up to 11x11 - non-square, forced asymmetric, single-1, all-0, larger than the raster; all 512 0/1 3x3 kernels are enumerated "
               "on 5 (quick) / 50 (thorough) all-distinct rasters. focal.mean is compared with the iterated 3x3 nan-mean with excluded values copied through "
-              "(passes 0..3, five excludes lists); convolution_2d with the full-window weighted sum and its NaN border / NaN propagation; hotspots with the "
-              "z-score classes (strict 1.65/1.96/2.58, ambiguity band counted), exact antisymmetry under negation and the zero-std error; invalid kernels must raise ValueError.")
-LEVEL_NOTE = ("Decision inside the enumerated 3x3-kernel space, sampling outside it. Tolerances are forward error bounds for a single-precision evaluation "
-              "in any order (Appendix C window-sum bound with the factor 2 widened to n/2 for windows of n > 4 cells); hotspot cells within max(1e-4, 64 eps32 (1+max|x|/std)) "
-              "of a threshold and focal.mean cases where an intermediate value lies within 1e-9 of an excluded value with an inexact window sum are skipped and counted. No +-inf cells; Dask is C01.")
+              "bit for bit (passes 0..3, five excludes lists); convolution_2d with the full-window weighted sum and its NaN border / NaN propagation; hotspots with the "
+              "z-score classes (strict 1.65/1.96/2.58, ambiguity band counted), exact antisymmetry under negation and the zero-std error. What happens to even-shaped / non-ndarray kernels is recorded as a label, not judged.")
+LEVEL_NOTE = ("Decision inside the enumerated 3x3-kernel space, sampling outside it. The statement fixes no working precision: a result is accepted within a forward "
+              "error bound of the float64 statistic of the original data that covers one float32 rounding of every input and of the result and a single-precision "
+              "evaluation in any order (Appendix C window-sum bound with the factor 2 widened to n/2 + 1 for windows of n cells); min / max / a reducer returning a window "
+              "entry must equal the input value or its float32 rounding. Bit-exactness is kept only for hotspots(-x) == -hotspots(x) and for excluded cells of focal.mean. "
+              "Kernels with entries other than 0/1 are outside the quantifier: observed, never judged - a change of `kernel == 1` into `kernel != 0` is therefore "
+              "equivalent under the statement and is not detected by design. Hotspot cells where the float64 z and the z of the float32-rounded data disagree or lie within "
+              "max(1e-4, 64 eps32 (1+max|x|/std)) of a threshold, and focal.mean cases where an intermediate value lies within 1e-9 of an excluded value with an inexact "
+              "window sum, are skipped and counted. No +-inf cells; Dask is C01.")
 TECHNIQUE = "property-based testing (Hypothesis) + exhaustive 3x3-kernel enumeration against an independent brute-force window model, plus a negation metamorphic relation for hotspots"
